@@ -274,7 +274,9 @@ HOSTILE_TEXT = [
     "(objectClass=*)",
     "߿ࠀ￿",
 ]
-ATTRS = ["cn", "objectClass", "sAMAccountName", "1.2.840.113556.1.4.803", "cn;lang-en", "o-0", "0.9.2342"]
+ATTRS = ["cn", "objectClass", "sAMAccountName", "1.2.840.113556.1.4.803", "cn;lang-en", "o-0", "0.9.2342",
+         # the same names in other spellings: equal for a directory, different octets on the wire
+         "CN", "objectclass", "OBJECTCLASS", "samaccountname", "cn;LANG-EN"]
 # RFC 4511 4.5.1.8 attribute selectors with a special meaning; they travel as ordinary strings
 SPECIAL_ATTRS = ["1.1", "*", "+"]
 # every result code RFC 4511 appendix A names (sessions must treat them alike, save 14 in a bind response)
